@@ -5,7 +5,12 @@
    any time, any number of times).  [authentic] is the AEAD premise (C05): every record handed over was
    really emitted by the peer - so loss, duplication, reordering and arbitrary delay are all covered.
    [N.of_nat (c_window c) <= 32767] : the replay window is smaller than half the 16-bit sequence
-   number space carried on the wire (the code's default is 64). *)
+   number space carried on the wire (the code's default is 64).
+   [no_shadow c] : no off-path sender left an unauthenticated handshake fragment, numbered like a future
+   post-handshake message, in either side's reassembly buffer while the handshake ran ([GInv] contains
+   the same fact).  The code does not enforce this (known finding K-C20-1; the model represents what
+   the code does in that case, see [on_ku]); [C20_shadowed_keyupdate_refuted] shows that the statements
+   about UpdateKeys, the epochs being in step and delivery fail without the premise. *)
 From Coq Require Import List NArith Bool.
 From DtlsV Require Import Lib.Bytes Rec.Window Ku.C20KeyUpdate Ku.C20KeyUpdateSound Ku.C20Run.
 Import ListNotations.
@@ -28,7 +33,7 @@ Print Assumptions C20_send_epoch_counts_commits.
 
 (* ---- the invariant of all authentic runs (used by the statements below) ---- *)
 Theorem C20_invariant_of_runs :
-  forall c : config, N.of_nat (c_window c) <= 32767 ->
+  forall c : config, N.of_nat (c_window c) <= 32767 -> no_shadow c ->
   forall ops : list op, authentic (init c) ops -> GInv (c_window c) (c_base c) (fst (exec (init c) ops)).
 Proof. exact run_GInv. Qed.
 Print Assumptions C20_invariant_of_runs.
@@ -36,7 +41,7 @@ Print Assumptions C20_invariant_of_runs.
 (* ---- UpdateKeys returns nil only in the step that delivers an ACK the peer really sent, and strictly
         earlier in the run the call's KeyUpdate was sent and the peer processed exactly that message ---- *)
 Theorem C20_update_returns_after_ack :
-  forall c : config, N.of_nat (c_window c) <= 32767 ->
+  forall c : config, N.of_nat (c_window c) <= 32767 -> no_shadow c ->
   forall (ops1 : list op) (o : op) (s : side) (id : N),
     authentic (init c) (ops1 ++ [o]) ->
     In (EvDone s id) (snd (step (fst (exec (init c) ops1)) o)) ->
@@ -64,7 +69,7 @@ Print Assumptions C20_update_completion_state.
 (* ---- at most once, unmodified: for every payload p and every run, Read on one side returns p at most
         as often as the application of the other side wrote p ---- *)
 Theorem C20_at_most_once_unmodified :
-  forall c : config, N.of_nat (c_window c) <= 32767 ->
+  forall c : config, N.of_nat (c_window c) <= 32767 -> no_shadow c ->
   forall (ops : list op) (X : side) (p : N),
     authentic (init c) ops ->
     (cnt (reads_of (other X) (snd (exec (init c) ops))) p <= cnt (writes_of X ops) p)%nat.
@@ -161,6 +166,22 @@ Theorem C20_delivered_if_arrives_while_retained :
     recv Y sy r = (add_got (mark sy e (r_seq r)) e (r_seq r) p, [EvRead Y p]).
 Proof. exact delivered_if_arrives_while_retained. Qed.
 Print Assumptions C20_delivered_if_arrives_while_retained.
+
+(* ---- known finding K-C20-1: [no_shadow] is necessary.  One planted fragment (the number of A's second
+        post-handshake message), authentic records only, nothing lost: A's second UpdateKeys returns nil,
+        B never processed that KeyUpdate, A writes under epoch 5 while B reads epoch 4, the payload
+        written afterwards is sent and never read ---- *)
+Theorem C20_shadowed_keyupdate_refuted :
+  exists (c : config) (ops : list op),
+    N.of_nat (c_window c) <= 32767 /\ authentic (init c) ops /\
+    (forall s, c_shadow c s = [] \/ c_shadow c s = [c_base c (other s) + 1]) /\
+    let st := fst (exec (init c) ops) in
+    let evs := snd (exec (init c) ops) in
+    In (EvStart A 1 4) evs /\ In (EvDone A 1) evs /\ ~ In (EvKuIn B 4) evs /\
+    w_epoch (sd st A) = 5 /\ r_epoch (sd st B) = 4 /\
+    In (EvSent A 5 (mkrec (secret_of A 5) 1 0 (App 9))) evs /\ reads_of B evs = [].
+Proof. exact shadowed_keyupdate_refuted. Qed.
+Print Assumptions C20_shadowed_keyupdate_refuted.
 
 (* ---- non-vacuity: a concrete authentic run (window 2 to keep it short) ---- *)
 Definition ex_cfg : config := cfg 2 3 7 1 2 [0; 1] [0].
